@@ -26,7 +26,14 @@ func isFunc(v interface{}) bool {
 }
 
 // implString renders an implementation value in the notation of MV.String().
-func implString(v interface{}) string {
+func implString(v interface{}) string { return implStringD(v, 0) }
+
+// implStringD stops at depth 40: a value that contains itself (a broken library can build one) must
+// not take the harness down with it.
+func implStringD(v interface{}, depth int) string {
+	if depth > 40 {
+		return "<nested deeper than 40>"
+	}
 	switch x := v.(type) {
 	case nil:
 		return "null"
@@ -60,7 +67,7 @@ func implString(v interface{}) string {
 	case []interface{}:
 		var p []string
 		for _, e := range x {
-			p = append(p, implString(e))
+			p = append(p, implStringD(e, depth+1))
 		}
 		return "[" + strings.Join(p, ",") + "]"
 	case map[string]interface{}:
@@ -73,7 +80,7 @@ func implString(v interface{}) string {
 		sort.Strings(keys)
 		var p []string
 		for _, k := range keys {
-			p = append(p, k+":"+implString(x[k]))
+			p = append(p, k+":"+implStringD(x[k], depth+1))
 		}
 		return "{" + strings.Join(p, ",") + "}"
 	case reflect.Value:
@@ -86,7 +93,7 @@ var sessNames = []string{"x", "y", "s", "flag", "o", "u"}
 var sessLocals = []string{"$a", "$b", "$c", "$"} // "$" alone is a $-prefixed name too
 var sessKeys = []string{"k1", "k2", "x", "$a", "user", "user.name", "v1.2", ""}
 var sessStrings = []string{"a", "b", "ab", "k1", "", "zz", "a b", " ", "héllo", "小明", "true", "null", "$a", "x", "A"}
-var sessStubs = []string{"rec", "put", "get", "fail", "pair", "cat", "poke"}
+var sessStubs = []string{"rec", "put", "get", "fail", "pair", "cat", "poke", "inc", "evk"}
 
 // ---------------------------------------------------------------- harness side of one runner
 
@@ -113,6 +120,7 @@ type sessRunner struct {
 	rc      *RunCtx
 	tc      *treeCache
 	nResolve int
+	inner    map[int]string // formulas that the host function evk evaluates on this runner, by number
 	last     *MNode // the formula of the previous EVAL, to be evaluated again on the same tree
 	lastText string
 	again    bool
@@ -193,6 +201,41 @@ func (sr *sessRunner) stubs(into map[string]interface{}, names map[string]bool) 
 			}
 			mm[k] = v
 			return v, nil
+		}
+	}
+	if names["inc"] {
+		// a typed parameter: what cannot be converted to an int is an error and no call
+		into["inc"] = func(n int) (interface{}, error) {
+			if err := sr.enter("inc", n); err != nil {
+				return nil, err
+			}
+			return n + 1, nil
+		}
+	}
+	if names["evk"] {
+		// evaluates another formula on the same runner while the calling evaluation is under way
+		into["evk"] = func(ctx context.Context, k int) (interface{}, error) {
+			if err := sr.enter("evk", k); err != nil {
+				return nil, err
+			}
+			r := formula.RunnerFromCtx(ctx)
+			text, ok := sr.inner[k]
+			if r == nil || !ok {
+				return nil, errors.New("evk: no runner or no such formula")
+			}
+			src, perr := formula.ParseSourceCode([]byte("[" + text + "]")) // inside an array numbers keep all their digits
+			if perr != nil || src == nil {
+				return nil, errors.New("evk: inner formula does not parse: " + errText(perr))
+			}
+			v, err := r.Resolve(ctx, src.Expression)
+			if err != nil {
+				return nil, err
+			}
+			arr, isArr := v.([]interface{})
+			if !isArr || len(arr) != 1 {
+				return nil, errors.New("evk: inner evaluation did not return a one-element array")
+			}
+			return arr[0], nil
 		}
 	}
 	if names["put"] {
@@ -314,6 +357,7 @@ type mgen struct {
 	nullArgs bool
 	bad      bool
 	dead     bool // an erroring node was emitted: nothing generated after it is ever evaluated
+	nInner   int  // formulas handed to evk so far
 }
 
 func lit(v MV) *MNode { return &MNode{Op: nLit, V: v} }
@@ -533,6 +577,32 @@ func (g *mgen) build(want int, d int) (*MNode, MV) {
 			v = mNull()
 		}
 		return &MNode{Op: nCall, Name: "get", Kids: []*MNode{lit(mStr(key))}}, v
+	case choice == 9 && g.has("evk") && g.s.Intn(3) == 0:
+		// a host function that evaluates another formula on this very runner, in the middle of this one
+		inner, v := g.build(want, d+1)
+		k := g.nInner
+		g.nInner++
+		return &MNode{Op: nCall, Name: "evk", Kids: []*MNode{lit(mNum(int64(k))), inner}}, v
+	case (choice == 9 || choice == 10 || choice == 5) && want == wNum && g.has("inc") && g.s.Bool(1, 2):
+		if g.bad && g.s.Intn(3) == 0 { // an argument that cannot be converted: an error, and no call
+			g.bad = false
+			g.dead = true
+			badArgs := []*MNode{lit(mBool(true)), lit(mStr("ab")), lit(mStr("héllo")), {Op: nArray, Kids: []*MNode{lit(mNum(1))}}}
+			return &MNode{Op: nCall, Name: "inc", Kids: []*MNode{badArgs[g.s.Intn(len(badArgs))]}}, mNull()
+		}
+		a, av := g.build(wNum, d+1)
+		if av.K != mkNum || av.N > 1<<52 || av.N < -(1<<52) {
+			return a, av
+		}
+		return &MNode{Op: nCall, Name: "inc", Kids: []*MNode{a}}, mNum(av.N + 1)
+	case choice == 9 && want == wAny && g.has("cat") && g.has("poke") && g.s.Intn(4) == 0:
+		// a local read on both sides of a host call that rebinds it
+		nm := sessLocals[g.s.Intn(len(sessLocals))]
+		before := g.m.lookup(nm)
+		rhs, v := g.build(1+g.s.Intn(3), d+1)
+		g.m.setEntry(nm, v)
+		pk := &MNode{Op: nCall, Name: "poke", Kids: []*MNode{{Op: nThis}, lit(mStr(nm)), rhs}}
+		return &MNode{Op: nCall, Name: "cat", Kids: []*MNode{nameNode(nm), pk, nameNode(nm)}}, mArr([]MV{before, v, v})
 	case choice == 9 && want == wAny && g.has("cat") && g.s.Bool(1, 2):
 		// a fixed parameter and a variadic tail; the tail is sometimes spread from an array literal
 		a, av := g.build(1+g.s.Intn(3), d+1)
@@ -774,6 +844,8 @@ func (sr *sessRunner) evalChecked(n *MNode, text string, faultAt int, shadow boo
 	if shadow {
 		tag = "SHADOW-EVAL(fault at call " + strconv.Itoa(faultAt) + ")"
 	}
+	sr.inner = map[int]string{}
+	n.collectInner(sr.inner)
 	before := dataSnapshot(sr.cur)
 	env := &mEnv{m: sr.m, faultAt: faultAt}
 	oldModel := sr.m.clone()
@@ -998,6 +1070,15 @@ func drawNames(s *Stream) {
 	}
 	sessLocals[1] = []string{"$b", "$b", "$A", "$1", "$中文", "$" + longName + "a", "$顧客の配送先住所の郵便番号の地域コード一"}[s.Intn(7)]
 	sessLocals[2] = []string{"$c", "$c", "$$", "$_c", "$a1", "$" + longName + "b", "$顧客の配送先住所の郵便番号の地域コード二"}[s.Intn(7)]
+	switch s.Intn(12) { // pairs of names that a popular string hash (h*31 + c) cannot tell apart
+	case 0:
+		sessLocals[1], sessLocals[2] = "$Aa", "$BB"
+	case 1:
+		sessNames[0], sessNames[1] = "aO", "b0"
+	case 2:
+		sessLocals[1], sessLocals[2] = "$AaAa", "$BBBB"
+		sessNames[0], sessNames[1] = "AaBB", "BBAa"
+	}
 }
 
 func runSessions(rc *RunCtx) {
